@@ -165,6 +165,23 @@ pub const FAMILIES: &[Family] = &[
         let args: Vec<String> = (0..n).map(|_| "1".to_string()).collect();
         format!("#ruledef\n{{\n    ldq {} => 0x00\n}}\nldq {}\n", pars.join(", "), args.join(", "))
     } },
+    // appended after a round-8 agent's notes: work that multiplies with the depth of nested asm blocks
+    Family { name: "asm-chain-forward-ref", nesting: true, gen: |n, _| {
+        // a chain of n asm-block rules around one instruction that names a label declared behind it
+        let n = n.min(24);
+        let mut s = "#ruledef\n{\n    lz0 {x} => 0x00 @ x`8\n".to_string();
+        for k in 1..=n {
+            s.push_str(&format!("    lz{} {{x}} => asm {{ lz{} {{x}} }}\n", k, k - 1));
+        }
+        s + &format!("}}\nlz{} fwd\nfwd:\n", n)
+    } },
+    Family { name: "asm-recursion-growing-argument", nesting: true, gen: |n, _| {
+        // a recursive asm-block rule whose argument text grows w-fold per level (w = 8 and 5 for the two smallest
+        // depth slots, no growth for the others: the recursion limit must answer those)
+        let w = match n { 1 => 8, 10 => 5, _ => 1 };
+        let arg: Vec<&str> = (0..w).map(|_| "{x}").collect();
+        format!("#ruledef\n{{\n    gz {{x}} => asm {{ gz ({}) }}\n}}\ngz 1\n", arg.join("+"))
+    } },
 ];
 
 pub fn magnitudes() -> Vec<String> {
